@@ -83,6 +83,18 @@ SEQ_KEYS = ["a", "b", "c", 0, 1, ["t", 2], "d", ["a"], 7, "e"]  # JSON lists bec
 TOL = 1e-12
 
 
+def exc_site(e: BaseException) -> str:
+    """<ExceptionType>@<qualified name of the innermost pipefunc function on the traceback>."""
+    tb, last = e.__traceback__, None
+    root = os.path.join(boot.REPO, "pipefunc") + os.sep
+    while tb is not None:
+        code = tb.tb_frame.f_code
+        if os.path.abspath(code.co_filename).startswith(root):
+            last = code.co_qualname
+        tb = tb.tb_next
+    return f"{type(e).__name__}@{last or 'outside-pipefunc'}"
+
+
 def _key(k):
     return tuple(_key(x) for x in k) if isinstance(k, list) else k
 
@@ -519,7 +531,7 @@ def opclass(model, op):
     if kind == "put":
         nfiles = len(model.files) + (0 if k in model.files else 1)
         excess = 0 if model.max_size is None else max(0, nfiles - model.max_size)
-        dc = ("put-file-resident" if k in model.files else "put-file-new") + ("" if excess == 0 else "-evict1" if excess == 1 else "-evict-multiple")
+        dc = "put-evict-multiple" if excess > 1 else ("put-file-resident" if k in model.files else "put-file-new") + ("-evict1" if excess else "")
         mc = "nomem" if mem is None else "put-mem-" + _lru_class(mem, "put", k)[4:]
         return {"top": f"{dc}/{mc}", "mem": mc, "disk": dc}
     if kind == "get":
@@ -547,7 +559,7 @@ def hybrid_put(out, name, model: HybridModel, impl, op, keys, where):
     try:
         impl.put(k, v, dur)
     except Exception as e:  # noqa: BLE001
-        out.fail(exc_bucket(e, f"{name}:{oc}:raised"), f"{where}: {exc_detail(e)}")
+        out.fail(f"{name}:{oc}:raised:{exc_site(e)}", f"{where}: {exc_detail(e)}")
         return False
     present = {x for x in set(keys) | before | {k} if _try(lambda x=x: x in impl) is True}
     missing = before - present - {k}
@@ -584,7 +596,8 @@ def apply_checked(out, name, model, impl, op, keys, env, where):
     kind = op[0]
     if isinstance(model, HybridModel) and kind == "put":
         return hybrid_put(out, name, model, impl, op, keys, where)
-    oc = opclass(model, op)["top"]
+    ocs = opclass(model, op)
+    oc = ocs["top"]
     try:
         if kind == "put":
             got = do_put(impl, op[1], op[2], None, env)
@@ -599,7 +612,10 @@ def apply_checked(out, name, model, impl, op, keys, env, where):
         else:
             raise AssertionError(op)
     except Exception as e:  # noqa: BLE001
-        out.fail(exc_bucket(e, f"{name}:{oc}:raised"), f"{where}: {exc_detail(e)}")
+        site = exc_site(e)
+        if "mem" in ocs:  # DiskCache: name the layer the exception comes from
+            oc = ocs["mem"] if "@LRUCache." in site else ocs["disk"]
+        out.fail(f"{name}:{oc}:raised:{site}", f"{where}: {exc_detail(e)}")
         return False
     if kind == "put":
         want = model.put(op[1], op[2])
@@ -685,6 +701,8 @@ def body_bfs(cfg) -> Outcome:
                             b = f"{name}:{cls_part}:{layer + '-' if layer != 'top' else ''}{sym}"
                             if r is not None and sym == "order":
                                 b += f":probe-raised-{r.sig}"
+                            if sym == "order":
+                                text += "  (order = [put result, membership of a/b/c, len] after each of max_size puts of fresh keys on a copy)"
                             local.fail(b, f"after {where}: {text}")
                             ok = False
                     env.release(mark)
@@ -787,10 +805,10 @@ def body_seq(data) -> Outcome:
     cls = data["cls"]
     name = CLSNAME[cls]
     keys = [_key(k) for k in SEQ_KEYS[: data["nkeys"]]]
-    avoid = data["avoid"]
+    avoid, avoid_multi = data["avoid"], data.get("avoid_multi", data["avoid"])
     env = Env()
     labels = [cls, f"{cls}:{'shared' if data['shared'] else 'local'}", "cloudpickle" if data["cloudpickle"] else "plain",
-              "avoid-known" if avoid else "unrestricted"]  # fmt: skip
+              "avoid-reput" if avoid else "reput-allowed"]  # fmt: skip
     units = 0
     try:
         data = dict(data, _dir=env.newdir())
@@ -804,6 +822,7 @@ def body_seq(data) -> Outcome:
         else:
             model = DiskModel(max_size, lru_size)
             labels.append("disk:lru" if lru_size else "disk:no-lru")
+            labels.append("disk:avoid-multi-evict" if avoid_multi else "disk:multi-evict-allowed")
             labels.append("disk:unbounded" if max_size is None else "disk:bounded")
         impl = seq_build(data, env, max_size, lru_size)
         tainted = False  # an LRU-layer re-put of a resident key has happened
@@ -830,9 +849,15 @@ def body_seq(data) -> Outcome:
                     new_max = max(1, max_size - 1)
                 elif how == "smaller2" and max_size is not None:
                     new_max = max(1, max_size - 2)
+                elif how == "one" and max_size is not None:
+                    new_max = 1
+                elif how == "larger2" and max_size is not None:
+                    new_max = max_size + 2
+                elif how in ("below1", "below2"):  # relative to the number of files present: over capacity on purpose
+                    new_max = max(1, len(model.files) - int(how[-1]))
                 elif how == "none":
                     new_max = None
-                if avoid and new_max is not None:
+                if avoid_multi and new_max is not None:
                     new_max = max(new_max, len(model.files), 1)
                 labels.append("disk:reopen-" + ("same" if new_max == max_size else "unbounded" if new_max is None else
                                                 "smaller" if max_size is None or new_max < max_size else "larger"))  # fmt: skip
@@ -842,7 +867,7 @@ def body_seq(data) -> Outcome:
                 try:
                     impl = seq_build(data, env, max_size, lru_size)
                 except Exception as e:  # noqa: BLE001
-                    out.fail(exc_bucket(e, f"{name}:reopen:raised"), f"{fmt_path(path)}: {exc_detail(e)}")
+                    out.fail(f"{name}:reopen:raised:{exc_site(e)}", f"{fmt_path(path)}: {exc_detail(e)}")
                     break
                 pending_shrink = max_size is not None and len(model.files) > max_size
                 if pending_shrink:
@@ -906,7 +931,7 @@ def body_seq(data) -> Outcome:
                 want_in = [k in model for k in universe]
                 if isinstance(got_len, Raised) or find_raised(got_in) is not None:
                     r = got_len if isinstance(got_len, Raised) else find_raised(got_in)
-                    local.fail(exc_bucket(r.e, f"{name}:{oc['top']}:observe-raised"), f"after {where}: {r!r}")
+                    local.fail(f"{name}:{oc['top']}:observe-raised:{exc_site(r.e)}", f"after {where}: {r!r}")
                     ok = False
                 elif got_len != len(model) or got_in != want_in:
                     local.fail(f"{name}:{oc['top']}:state", f"after {where}: len {got_len} (model {len(model)}), present "
@@ -968,10 +993,12 @@ def seq_cases(draw):
     if cls == "hybrid":
         d["aw"], d["dw"] = draw(st.sampled_from([[0.5, 0.5], [1.0, 0.0], [0.0, 1.0], [0.3, 0.7], [0.9, 0.1]]))
     if cls == "disk":
+        d["max_size"] = draw(st.integers(1, 6))
         d["lru_size"] = draw(st.sampled_from([0, 0, 1, 2, 3, 128]))
+        d["avoid_multi"] = draw(st.booleans())
         if draw(st.integers(0, 9)) == 0:
             d["max_size"] = None
-    kinds = ["put"] * 5 + ["get"] * 3 + ["in", "len"] + (["reopen"] if cls == "disk" else [])
+    kinds = ["put"] * 5 + ["get"] * 3 + ["in", "len"] + (["reopen"] * 2 if cls == "disk" else [])
     n = draw(st.integers(1, 40 if not shared else 25))
     ops = []
     for _ in range(n):
@@ -986,10 +1013,26 @@ def seq_cases(draw):
         elif kind in ("get", "in"):
             ops.append([kind, draw(st.integers(0, nkeys - 1))])
         elif kind == "reopen":
-            ops.append(["reopen", draw(st.sampled_from(["same", "smaller1", "smaller2", "smaller2", "none"])),
+            ops.append(["reopen", draw(st.sampled_from(["same", "smaller1", "smaller2", "one", "below1", "below2", "larger2", "none"])),
                         draw(st.sampled_from([0, 1, 2, 128]))])  # fmt: skip
         else:
             ops.append([kind])
+    if cls == "disk" and draw(st.integers(0, 3)) == 0:
+        # constructed scenario: fill, reopen below the number of files, keep writing (several files must go at once)
+        d["avoid"], d["avoid_multi"] = True, False
+        if d["max_size"] is not None:
+            d["max_size"] = max(2, d["max_size"])
+        ops = []
+        for _ in range(draw(st.integers(1, 3))):
+            for _ in range(draw(st.integers(2, 6))):
+                ops.append(["put", draw(st.integers(0, nkeys - 1)), draw(_values)])
+            ops.append(["reopen", draw(st.sampled_from(["below1", "below2", "below2", "one"])), draw(st.sampled_from([0, 1, 2, 128]))])
+            for _ in range(draw(st.integers(1, 4))):
+                kind = draw(st.sampled_from(["put", "put", "get", "in", "len"]))
+                ops.append(["put", draw(st.integers(0, nkeys - 1)), draw(_values)] if kind == "put" else
+                           [kind, draw(st.integers(0, nkeys - 1))] if kind != "len" else ["len"])  # fmt: skip
+            if draw(st.booleans()):
+                ops.append(["reopen", "larger2", draw(st.sampled_from([0, 2]))])
     d["ops"] = ops
     return d
 
@@ -1014,7 +1057,8 @@ class Baton:
 
     RUN_TIMEOUT = 60.0
 
-    def __init__(self, schedule):
+    def __init__(self, schedule, cyclic=False):
+        self.cyclic = cyclic and len(schedule) > 0
         self.ctrl = threading.Semaphore(0)
         self.sem: dict = {}
         self.n = 0
@@ -1038,8 +1082,8 @@ class Baton:
             return None
         i = 0
         if len(ready) > 1:
-            if self.pos < len(self.schedule):
-                i = self.schedule[self.pos] % len(ready)
+            if self.pos < len(self.schedule) or self.cyclic:
+                i = self.schedule[self.pos % len(self.schedule)] % len(ready)
                 self.pos += 1
             self.choices.append((i, len(ready)))
         t = ready[i]
@@ -1332,7 +1376,7 @@ def run_interleaving(data, schedule):
     """One execution. Returns (failures [(bucket, detail)], baton, info)."""
     cls, m = data["cls"], data["max_size"]
     name = CLSNAME[cls]
-    baton = Baton(schedule)
+    baton = Baton(schedule, cyclic=data.get("cyclic", False))
     c, fm = build_fake_shared(cls, m, data.get("cloudpickle", False), baton)
     pre, threads = _ilv_ops(data)
     fails: list = []
@@ -1353,7 +1397,7 @@ def run_interleaving(data, schedule):
         for kind, k, v in pre:
             _do(c, cls, kind, k, v)
     except Exception as e:  # noqa: BLE001
-        fails.append((exc_bucket(e, f"{name}:{taint}prelude-raised"), exc_detail(e)))
+        fails.append((f"{name}:{taint}prelude-raised:{exc_site(e)}", exc_detail(e)))
         return fails, baton, {"status": "prelude"}
     errors: list = []
     results: list = []
@@ -1382,7 +1426,7 @@ def run_interleaving(data, schedule):
         return fails, baton, info
     for tid, i, kind, k, e, n0, n1 in errors:
         interrupted = any(t != tid for t, _ in baton.trace[n0:n1])
-        fails.append((exc_bucket(e, f"{name}:{taint}{kind}-raised") + (":interleaved" if interrupted else ":uninterrupted"),
+        fails.append((f"{name}:{taint}{kind}-raised:{exc_site(e)}" + (":interleaved" if interrupted else ":uninterrupted"),
                       f"thread {tid} op {i} {kind}({k!r}): {exc_detail(e)}; {sched_txt}"))  # fmt: skip
     for tid, i, kind, k, r in results:
         if kind == "get" and r is not None and r not in put_values.get(k, ()):
@@ -1420,7 +1464,7 @@ def run_interleaving(data, schedule):
         if len(c) > m:
             fails.append((f"{name}:{taint}quiescent-len-exceeds-max_size", f"after probe len {len(c)} > {m}; {sched_txt}"))
     except Exception as e:  # noqa: BLE001
-        fails.append((exc_bucket(e, f"{name}:{taint}quiescent-raised"), f"{exc_detail(e)}; {sched_txt}"))
+        fails.append((f"{name}:{taint}quiescent-raised:{exc_site(e)}", f"{exc_detail(e)}; {sched_txt}"))
     return fails, baton, info
 
 
@@ -1439,7 +1483,7 @@ def body_interleave(data) -> Outcome:
     out.labels = [data["cls"], "distinct-put-keys" if data.get("distinct") else "shared-put-keys",
                   f"threads:{len(data['threads'])}", "switches-inside:" + ("0" if sw == 0 else "1" if sw == 1 else "2-3" if sw <= 3 else "4+"),
                   "choices:" + ("0" if not baton.choices else "<=5" if len(baton.choices) <= 5 else "<=12" if len(baton.choices) <= 12 else ">12"),
-                  "schedule-exhausted" if baton.pos >= len(data["schedule"]) and baton.choices else "schedule-sufficient",
+                  "schedule-cyclic" if baton.cyclic else "schedule-exhausted" if baton.pos >= len(data["schedule"]) and baton.choices else "schedule-sufficient",
                   "status:" + info["status"]]  # fmt: skip
     return out
 
@@ -1479,6 +1523,7 @@ def ilv_cases(draw):
         "prelude": draw(st.lists(st.tuples(st.just("put"), st.integers(0, 2)).map(list), max_size=2)),
         "threads": [draw(st.lists(_ilv_op, min_size=2, max_size=4)) for _ in range(nthreads)],
         "schedule": draw(st.lists(st.integers(0, 2), min_size=4, max_size=70)),
+        "cyclic": draw(st.booleans()),  # reuse the schedule cyclically once it is used up (else: lowest runnable thread)
     }
     return d
 
@@ -1515,12 +1560,12 @@ def body_ilv_sys(data) -> Outcome:
     complete = False
     max_sw = 0
     while n < cap:
-        fails, baton, info = run_interleaving(data, schedule)
+        fails, baton, info = run_interleaving(dict(data, cyclic=False), schedule)
         n += 1
         max_sw = max(max_sw, info.get("switches_inside", 0))
         for b, d in fails:
             if b not in seen:
-                out.fail(b, d + f" [replay: campaign interleave with schedule={schedule}]")
+                out.fail(b, d + f" [replay: campaign interleave, same data plus schedule={schedule}, cyclic=false]")
             seen.add(b)
         ch = list(info.get("choices", []))
         while ch and ch[-1][0] + 1 >= ch[-1][1]:
